@@ -436,6 +436,8 @@ class Canon:
         # string concatenation and list concatenation are not arithmetic
         if o == "+" and (_is_str(l) or _is_str(r)):
             return mk("fn", "strcat", l, r)
+        if o == "+" and (_is_seq(l) or _is_seq(r)):
+            return mk("fn", "seqcat", l, r)  # list / tuple concatenation is not commutative
         rl, rr = self._as_rat(l), self._as_rat(r)
         if o == "+":
             return self._num(rl + rr)
@@ -537,6 +539,18 @@ def _lit(t: T):
 
 def _is_zero(t: T):
     return t.op == "const" and not isinstance(const_value(t), (str, type(None))) and const_value(t) == 0
+
+
+def _is_seq(t: T):
+    if t.op in ("list", "tuple", "comp", "listappend", "listextend"):
+        return True
+    if t.op in ("or", "and"):
+        return any(_is_seq(x) for x in t.args[0])
+    if t.op == "ite":
+        return _is_seq(t.args[1]) or _is_seq(t.args[2])
+    if t.op == "fn" and t.args[0] in ("list", "sorted", "seqcat"):
+        return True
+    return False
 
 
 def _is_str(t: T):
